@@ -281,6 +281,7 @@ class Engine:
                 w('        return')
                 w('')
             base = BASE[a['k']]
+            cls_start = len(L)
             if hit('alg-base', a['n']):
                 w(f'class A_{an}:')
                 w('    def __init__(self):')
@@ -330,6 +331,16 @@ class Engine:
             else:
                 w('    def run(self, ps, timeline):')
                 w(f"        rt.run(PKG, TASK, self, 'regress', timeline)")
+            if self.desc.get('nest_same_name') and self.style != 'legacy':
+                # every element is a class called Impl nested in its own enclosing
+                # class: same __name__, different __qualname__
+                block = L[cls_start:]
+                del L[cls_start:]
+                w(f'class Box_{an}:')
+                for line in block:
+                    line = line.replace(f'class A_{an}(', 'class Impl(', 1)
+                    w(('    ' + line) if line else line)
+                w(f'A_{an} = Box_{an}.Impl')
             w('')
         if self.style == 'custom':
             # current (self-registering) style, but the package brings its own
